@@ -168,6 +168,10 @@ func runIPServer(ctx context.Context, log *slog.Logger, mtrcs *ipServerMetrics,
 					continue
 				}
 				cookie := encryptedCookie.Encode()
+				if len(cookies) == nts.ResponseCookieCapacity(len(ntsreq.UniqueID.ID), len(cookie)) {
+					// as many cookies as fit into the response
+					break
+				}
 				cookies = append(cookies, cookie)
 				addedCookie = true
 			}
